@@ -1,4 +1,5 @@
 import SimilarVerif.Props.C01
+import SimilarVerif.Lemmas.PatienceTotal
 /-!
 # C15 — Patience keeps a maximum in-order set of unique common items
 
@@ -6,10 +7,11 @@ Proved here: (i) every Patience stream that returns is a valid script (C01), so 
 Equal is paired with an equal item — for an item occurring exactly once on each side that is its
 unique counterpart, never another occurrence; (ii) `unique` returns exactly… (facts about `unique` used
 by the soundness proof: indices in range, strictly ascending).  The size clause (the reported set is
-as large as the longest common in-order subsequence of the unique items) needs minimality of the
-outer Myers run on the two unique lists — Myers' theory (Lemmas/MyersTheory.lean, in progress) — and
-is until then established by the `raw`/`cap` suites: a brute-force LIS validator on every Patience
-run, raw and captured.
+as large as the longest common in-order subsequence of the unique items) is `reports_max_in_order_set`
+(second half of this file): the outer Myers run over the two unique lists is optimal (hook-generic
+Myers optimality), and every pair it reports becomes part of an Equal segment of the user's stream.
+`lcsLen` over the two unique lists compared through the items IS that longest common in-order
+subsequence: an item unique on one side only matches nothing on the other.
 -/
 namespace SimilarVerif.C15
 open SimilarVerif Spec
@@ -75,5 +77,21 @@ theorem patience_valid_uncond (E : Env) (os oe ns ne : Nat) (w : World) (r' : Re
     (ho : os ≤ oe) (hn : ns ≤ ne) (hb : InBounds E os oe ns ne)
     (h : rawTrace .patience E os oe ns ne w = .ok (r', w')) : ValidRaw E os oe ns ne r'.trace :=
   C01.patience_valid_if_returns E os oe ns ne w r' w' ho hn hb h
+
+end SimilarVerif.C15
+
+namespace SimilarVerif.C15
+open SimilarVerif Spec
+
+/-- **the size clause** (no deadline): there is a chain of `lcsLen(unique old, unique new)` anchor
+pairs — strictly increasing on both sides — each consisting of equal items and each reported Equal
+(covered by an `equal` op of the user's stream at exactly that pair of positions) -/
+theorem reports_max_in_order_set : type_of% @PatienceT.patience_lis := @PatienceT.patience_lis
+
+/-- … counted: at least `lcsLen` of the unique old items are reported Equal with their counterpart -/
+theorem reported_count_ge_lcs : type_of% @PatienceT.patience_lis_count := @PatienceT.patience_lis_count
+
+/-- every pair the outer run reports is an anchor of equal items and is reported to the user -/
+theorem anchors_are_reported : type_of% @PatienceT.patience_anchors_reported := @PatienceT.patience_anchors_reported
 
 end SimilarVerif.C15
